@@ -73,28 +73,7 @@ func dbGrowthOne(r *vf.Run, store string, note func(string)) {
 	ents = append(ents, gen.Entry{Name: "zz-multi", Type: tar.TypeReg, Mode: 0o644, ModTime: 1600000000, Size: 3*512 + 1, ContentID: rng.U64() | 1,
 		Xattrs: map[string]string{"user.big": string(rng.Bytes(200))}})
 	c := &tcase{stage: 3, idx: 0, chunk: 512, ents: ents}
-	c.model = gen.Model(ents)
-	c.tarBytes = gen.TarBytes(ents)
-	c.paths = c.model.Paths()
-	c.explicitCount = map[string]int{}
-	for _, e := range ents {
-		if e.Type == tar.TypeDir {
-			c.explicitCount[gen.Clean(e.Name)]++
-			if gen.Clean(e.Name) == "" {
-				c.rootEntry = true
-			}
-		}
-	}
-	for _, p := range c.paths {
-		switch c.model.Nodes[p].Type {
-		case tar.TypeDir:
-			c.dirs = append(c.dirs, p)
-		case tar.TypeReg:
-			c.files = append(c.files, p)
-		case tar.TypeSymlink:
-			c.symlinks = append(c.symlinks, p)
-		}
-	}
+	c.index()
 	c.bopts = blob.Opts{ChunkSize: 512, Compression: "gzip", Level: 1}
 	built, err := blob.Build(c.tarBytes, c.bopts)
 	if err != nil {
@@ -127,7 +106,7 @@ func dbGrowthOne(r *vf.Run, store string, note func(string)) {
 		r.Inconclusive("dbgrowth: publish: " + err.Error())
 		return
 	}
-	e := &envSpec{store: store, desc: store + " dbgrowth: layer A kept mounted while 12 layers of 3000 files are resolved through the same resolver", cfg: config.Config{}}
+	e := &envSpec{store: store, desc: store + " dbgrowth: layer A kept mounted while 12 layers of 3000 files are resolved through the same resolver", cfg: config.Config{}, scenario: "after-db-growth"}
 	e.cfg.FSCacheType, e.cfg.HTTPCacheType = "memory", "memory"
 	env, err := l2.NewEnv(reg, root, e.cfg, store, layer.OverlayOpaqueAll, 0)
 	if err != nil {
